@@ -288,6 +288,8 @@ def gen_atom(g: G, m):
     kinds += ["geo", "lit"]
     if g.profile.get("no_geo"):
         kinds = [k for k in kinds if k != "geo"] or ["lit"]
+    if m == "dS":
+        kinds += ["geo", "geo"]
     k = g.pick(kinds)
     if k == "coef":
         i = g.int(0, len(spec["coefs"]) - 1)
@@ -441,8 +443,22 @@ def gen_integrand(g: G, m, depth):
             Lu = ["dot", Mt, Lu]
             g.features.add("tensor-coefficient")
     if K != ["lit", 1.0]:
+        Lu0 = Lu
         Lu = ["mul", K, Lu]
-    return ["inner", Lu, Lv]
+    else:
+        Lu0 = Lu
+    term = ["inner", Lu, Lv]
+    if g.chance(g.profile.get("p_multiterm", 0.3)):
+        # a second product of the same argument pair in the opposite operand order (test function first), so that
+        # argument factorisation has to merge two contributions to one (test, trial) block
+        su, sv = to_scalar(g, Lu0), to_scalar(g, Lv)
+        K2 = gen_scalar(g, m, 1)
+        second = ["mul", ["mul", ["conj", sv] if g.complex else sv, K2], su]
+        if g.chance(0.5):
+            second = ["mul", ["conj", sv] if g.complex else sv, ["mul", su, K2]]
+        term = [g.pick(["add", "sub"]), term, second]
+        g.features.add("multiterm")
+    return term
 
 
 # ---------------------------------------------------------------------------------------
@@ -509,6 +525,8 @@ def gen_subdomain_id(draw, pr):
     mode = pr["ids"]
     if mode == "simple":
         return draw(st.sampled_from([None, None, 0, 1, 3]))
+    if mode == "few":  # many integrals share a subdomain -> several rules / coefficient subsets per kernel
+        return draw(st.sampled_from([None, None, None, 2]))
     if mode == "rich":
         r = draw(st.integers(0, 5))
         if r <= 1:
@@ -626,7 +644,7 @@ def spec_classes(spec):
     out += [f"measure:{m}" for m in sorted({i['m'] for i in spec["integrals"]})]
     out.append(f"nintegrals:{len(spec['integrals'])}")
     for f in spec.get("_features", []):
-        if f.startswith(("fun:", "op:", "geo:", "L:", "restr:", "transform:")) or f in ("split", "tensor-coefficient"):
+        if f.startswith(("fun:", "op:", "geo:", "L:", "restr:", "transform:")) or f in ("split", "tensor-coefficient", "multiterm"):
             out.append(f)
     return out
 
